@@ -214,9 +214,20 @@ func probeHookFilter(t testing.TB, c *ev.Collector) {
 // With a fence interpreter shared with the pool this kills the process
 // (two goroutines on one LState) - the driver reports that as server-panic.
 func runHookConcurrency(t testing.TB, c *ev.Collector, srv *t38.Srv, ctl, sub *t38.Conn) {
-	live := srv.MustDial()
-	defer live.Close()
-	if v, err := live.Do("WITHIN", "fleet", "WHEREEVAL", "return FIELDS.speed > tonumber(ARGV[1])", "1", "50", "WHEREEVAL", "return KEYS == nil", "0", "FENCE", "DETECT", "enter", "BOUNDS", "0", "0", "10", "10"); err != nil || !v.Equal(t38.Simple("OK")) {
+	// first without a live fence (which would take the interpreter on top of
+	// the pool out of circulation), then with one
+	runHookRound(t, c, srv, ctl, sub, "a", false)
+	runHookRound(t, c, srv, ctl, sub, "b", true)
+}
+
+func runHookRound(t testing.TB, c *ev.Collector, srv *t38.Srv, ctl, sub *t38.Conn, round string, withLive bool) {
+	var live *t38.Conn
+	if withLive {
+		live = srv.MustDial()
+		defer live.Close()
+	}
+	if !withLive {
+	} else if v, err := live.Do("WITHIN", "fleet", "WHEREEVAL", "return FIELDS.speed > tonumber(ARGV[1])", "1", "50", "WHEREEVAL", "return KEYS == nil", "0", "FENCE", "DETECT", "enter", "BOUNDS", "0", "0", "10", "10"); err != nil || !v.Equal(t38.Simple("OK")) {
 		c.Violation("hook-filter-not-followed", fmt.Sprintf("live WITHIN ... WHEREEVAL ... FENCE answered %v (err %v)", v, err), map[string]any{"sub": "hookfilter"})
 		return
 	}
@@ -247,11 +258,14 @@ func runHookConcurrency(t testing.TB, c *ev.Collector, srv *t38.Srv, ctl, sub *t
 	wantAll := map[string]bool{}
 	var slow []string
 	for i := 0; i < ev.Pick(40, 200); i++ {
-		id := fmt.Sprintf("o%d", i)
+		id := fmt.Sprintf("%s%d", round, i)
 		speed := "20"
 		if i%2 == 0 {
 			speed = "90"
-			wantAll["noargs/"+id], wantAll["withargs/"+id], wantAll["clean/"+id], wantAll["live/"+id] = true, true, true, true
+			wantAll["noargs/"+id], wantAll["withargs/"+id], wantAll["clean/"+id] = true, true, true
+			if withLive {
+				wantAll["live/"+id] = true
+			}
 		} else {
 			slow = append(slow, id)
 			wantAll["clean/"+id] = true
@@ -259,6 +273,7 @@ func runHookConcurrency(t testing.TB, c *ev.Collector, srv *t38.Srv, ctl, sub *t
 		wantAll["plain/"+id] = true
 		ctl.MustDo("SET", "fleet", id, "FIELD", "speed", speed, "POINT", "4", "4")
 		c.Case()
+		time.Sleep(4 * time.Millisecond) // spread the writes over many script runs
 	}
 	got := collectNotesLive(sub, live, wantAll, 20*time.Second, 500*time.Millisecond)
 	close(stop)
@@ -292,7 +307,7 @@ func runHookConcurrency(t testing.TB, c *ev.Collector, srv *t38.Srv, ctl, sub *t
 			c.Violation("hook-filter-not-followed", fmt.Sprintf("fence notifications missing for objects the WHEREEVAL filter accepts while scripts were running (the unfiltered channel delivered all): %v", missing), map[string]any{"sub": "hookfilter"})
 		}
 	}
-	c.NonTrivial("hookfilter-concurrent")
+	c.NonTrivial("hookfilter-concurrent-" + round)
 }
 
 func TestC18_HookFilter(t *testing.T) {
